@@ -68,12 +68,65 @@ func c05SelfTest() error {
 
 func canon(c *fw.Case, in []byte) ([]byte, error) {
 	c.Count("bytes-path", 1)
+	if c.Rng.Chance(1, 8) {
+		// a document the canonicalizer has to give up on half-way comes first: nothing of it shows in the next result
+		bad := fw.Pick(c.Rng, []string{`{"alpha":1,"beta":tru}`, `{"a":1,"a":2}`, `{"k":{"x":1,"y":[1,2,`, `[{"m":1},{"n":"unterminated]`, `{"z":1,}`, `{"p":{"q":{"r":1,"r":2}}}`})
+		canonicalizer.MarshalCanonical([]byte(bad))
+		c.Count("malformed-documents-canonicalized-in-between", 1)
+	}
 	return canonicalizer.MarshalCanonical(in)
 }
 
 func runC05(r *fw.Runner) {
 	if err := c05SelfTest(); err != nil {
 		panic("SELFTEST " + err.Error())
+	}
+	// wide, flat documents: thousands of empty or small containers next to each other are not deep nesting
+	for _, shape := range []string{"empty-objects", "empty-arrays", "pairs", "records-with-empty-member", "mixed"} {
+		shape := shape
+		for _, n := range []int{1200, 12000} {
+			n := n
+			r.Case("wide-documents", func(c *fw.Case) {
+				var sb strings.Builder
+				sb.WriteString(`{"list":[`)
+				for i := 0; i < n; i++ {
+					if i > 0 {
+						sb.WriteByte(',')
+					}
+					switch shape {
+					case "empty-objects":
+						sb.WriteString("{}")
+					case "empty-arrays":
+						sb.WriteString("[]")
+					case "pairs":
+						fmt.Fprintf(&sb, "[%d,%d]", i, i+1)
+					case "records-with-empty-member":
+						fmt.Fprintf(&sb, `{"meta":{},"id":%d,"tags":[]}`, i)
+					default:
+						sb.WriteString([]string{"{}", "[]", `[[]]`, `{"a":{}}`, "1"}[i%5])
+					}
+				}
+				sb.WriteString(`],"z":1,"a":{}}`)
+				in := []byte(sb.String())
+				c.Count("wide-documents", 1)
+				c.Evals(2)
+				c.Sig("wide", shape, n)
+				v, _ := oracle.ParseJSON(in)
+				want := string(oracle.MustJCS(v))
+				out, err := canonicalizer.MarshalCanonical(in)
+				if err != nil || string(out) != want {
+					c.Failf("wide-document", map[string]interface{}{"shape": shape, "containers": n, "err": fmt.Sprint(err), "got_prefix": fmt.Sprintf("%.80s", out)}, "a flat document with %d %s is not canonicalized (err=%v)", n, shape, err)
+					return
+				}
+				var gv interface{}
+				if json.Unmarshal(in, &gv) == nil {
+					out2, err2 := canonicalizer.MarshalCanonical(gv)
+					if err2 != nil || string(out2) != want {
+						c.Failf("wide-document", map[string]interface{}{"shape": shape, "containers": n, "route": "go-value", "err": fmt.Sprint(err2)}, "a flat Go value with %d %s is not canonicalized (err=%v)", n, shape, err2)
+					}
+				}
+			})
+		}
 	}
 	// the canonical form of a value does not depend on what other goroutines canonicalize at the same moment
 	for b := 0; b < r.N(1, 3); b++ {
